@@ -21,7 +21,8 @@ func init() {
 			"C20.b CONST/WHO: every call of a Proxy method in package http passes makeCredentials(r) as credentials (a nil literal is reported). " +
 			"C20.c DOM: DoRedirect is reached only on the edge where the proxy returned ErrNotLeader, and the handlers pass qp.Redirect() as noForward. " +
 			"C20.d TABLE: for every Command_Type the request wrapper and response message used by cluster.Client equal the payload getter and response message used in the matching case of cluster.Service.handleConn. " +
-			"C20.e ORD: cluster.Client.retry may send a command again only if the previous attempt failed before the request was written; a second send reachable from the failure of the combined write-and-read step is reported (the leader may already have applied the command).",
+			"C20.e ORD: cluster.Client.retry may send a command again only if the previous attempt failed before the request was written; a second send reachable from the failure of the combined write-and-read step is reported (the leader may already have applied the command). " +
+			"C20.f PAIR: in package cluster, after every failed writeCommand / readResponse / writeCommandReadResponse the pooled connection is marked unusable (handleConnError / MarkUnusable, directly or through a helper all of whose paths do it) on every path before the function returns; otherwise a late response stays queued on a pooled connection and is read as the answer to the next forwarded request.",
 		NotCovered: []string{"behaviour while leadership moves between the local call and the forward", "redirect URL formation"},
 		Run:        runC20,
 	})
@@ -44,6 +45,7 @@ var proxyRows = []proxyRow{
 }
 
 func runC20(c *core.Ctx) {
+	c20ConnHygiene(c)
 	n := 0
 	for _, row := range proxyRows {
 		if c20proxy(c, row) {
